@@ -95,6 +95,23 @@ def replay(p):
             d1 = _np(amp1(AT.phsp_data(config1, 2)))
             err = float(np.max(np.abs(d0 - d1)))
             return {"reproduced": bool(err > 1e-9), "error_magnitude": err}
+        if kind == "cached_int":
+            from tf_pwa.experimental import opt_int
+
+            cfg = p["cfg"]
+            amp, config = AT.build_model(getattr(AT, cfg))
+            data = AT.phsp_data(config, 2)
+            w = np.array(p["weights"], dtype=np.float64)
+            amp.vm.rp2xy_all()
+            for i_, nm_ in enumerate(AT.coupling_names(amp.vm)):
+                amp.vm.set(nm_, [0.75, -0.5, 1.25, 0.625][i_ % 4])
+            index, mat = opt_int.build_int_matrix(amp.decay_group, data, weight=tf.convert_to_tensor(w))
+            _setp(amp, p.get("params"))
+            pm = opt_int.build_params_matrix(amp.decay_group)
+            tot = float(np.real(np.sum(_np(pm) * np.array([[complex(_np(x)) for x in row] for row in mat]))))
+            ref = float(np.sum(w * _np(amp(data))))
+            err = abs(tot - ref)
+            return {"reproduced": bool(err > 1e-9 * max(1.0, abs(ref))), "error_magnitude": err, "cached_integral": tot, "sum_w_f": ref, "weights": w.tolist()}
     except Exception as e:
         return {"reproduced": False, "error": "%s: %s" % (type(e).__name__, str(e)[:300])}
     return {"reproduced": False, "error": "no replay for %s" % kind}
